@@ -23,6 +23,7 @@ import threading
 import time
 
 VERIF = os.path.dirname(os.path.dirname(os.path.abspath(__file__)))
+EVID = os.environ.get('VERIF_EVIDENCE_DIR') or os.path.join(VERIF, 'evidence')   # mutant trials write elsewhere
 TOOLS = os.path.join(VERIF, 'tools')
 VSTD = os.path.join(VERIF, 'vstd')
 REPO = os.environ.get('VERIF_REPO', '/repo')
@@ -519,7 +520,7 @@ class Runner:
                 p = sh(cmd, check=False)
                 self.extra_cov.setdefault('compile_obligations', []).append({'name': name, 'holds': p.returncode == 0})
                 if p.returncode != 0:
-                    os.makedirs(os.path.join(VERIF, 'evidence', 'replay'), exist_ok=True)
+                    os.makedirs(os.path.join(EVID, 'replay'), exist_ok=True)
                     rp = os.path.join(VERIF, 'evidence', 'replay', '%s_obligation_%s.json' % (self.prop, re.sub(r'\W', '_', name)))
                     json.dump({'property': self.prop, 'kind': 'compile-time obligation failed', 'name': name, 'command': cmd, 'diagnostics': p.stdout[-4000:],
                                'unit': u.name, 'defs': [], 'vin': [], 'assertion': name}, open(rp, 'w'), indent=1)
@@ -683,7 +684,7 @@ class Runner:
         rec.setdefault('counterexamples', []).append({'cbmc_property': prop, 'desc': desc, 'vin': vin, 'native_rc': rc,
                                                       'reproduced': confirmed, 'how': how})
         if confirmed:
-            os.makedirs(os.path.join(VERIF, 'evidence', 'replay'), exist_ok=True)
+            os.makedirs(os.path.join(EVID, 'replay'), exist_ok=True)
             path = os.path.join(VERIF, 'evidence', 'replay', '%s_%s_%s_%d.json' % (self.prop, u.name, re.sub(r'\W', '_', q.name), len(self.violations)))
             json.dump({'property': self.prop, 'unit': u.name, 'query': q.name, 'defs': defs, 'vin': vin, 'cbmc_property': prop,
                        'assertion': desc, 'native_rc': rc, 'native_stdout': out[-2000:], 'native_stderr': err[-3000:], 'how': how},
@@ -713,7 +714,7 @@ class Runner:
         if reached:
             self.inconclusive.append('MODEL-DIVERGENCE: solver says "%s" is impossible but the native build exhibits it' % w)
             return
-        os.makedirs(os.path.join(VERIF, 'evidence', 'replay'), exist_ok=True)
+        os.makedirs(os.path.join(EVID, 'replay'), exist_ok=True)
         path = os.path.join(VERIF, 'evidence', 'replay', '%s_%s_%s_%d.json' % (self.prop, u.name, re.sub(r'\W', '_', q.name), len(self.violations)))
         json.dump({'property': self.prop, 'unit': u.name, 'query': q.name, 'defs': q.defs + kf_defs, 'vin': [], 'kind': 'existential claim refuted',
                    'assertion': 'no values exist for which: ' + w, 'native_samples_without_witness': tried,
@@ -776,5 +777,5 @@ class Runner:
             'wall_s': round(time.time() - self.t0, 1),
             'violations': len(self.violations),
         }
-        os.makedirs(os.path.join(VERIF, 'evidence'), exist_ok=True)
-        json.dump(ev, open(os.path.join(VERIF, 'evidence', '%s.json' % self.prop), 'w'), indent=1)
+        os.makedirs(EVID, exist_ok=True)
+        json.dump(ev, open(os.path.join(EVID, '%s.json' % self.prop), 'w'), indent=1)
